@@ -295,6 +295,10 @@ structure Flags where
   strictDecode : Bool
   /-- `update_working_tree` applies all deletions before it writes -/
   deletesFirst : Bool
+  /-- `_transition_to_absent` removes the index entry also when the file is already gone from disk -/
+  absentDropsIndex : Bool
+  /-- a forced checkout / switch starts from the index and visits unchanged paths too (as `reset --hard` does) -/
+  forceUsesIndex : Bool
   deriving DecidableEq, Repr
 
 def cur : Flags :=
@@ -303,12 +307,13 @@ def cur : Flags :=
     catchesNotDir := Gen.WorkTree.unstagedCatchesNotDir,
     unstageCatchesNotDir := Gen.WorkTree.unstageCatchesNotDir,
     resolveLinks := Gen.WorkTree.lookupResolvesLinks, linkDirsAsDirs := Gen.WorkTree.walkLinkDirsAsDirs,
-    strictDecode := Gen.WorkTree.strictPathDecoding, deletesFirst := Gen.WorkTree.switchDeletesFirst }
+    strictDecode := Gen.WorkTree.strictPathDecoding, deletesFirst := Gen.WorkTree.switchDeletesFirst,
+    absentDropsIndex := Gen.WorkTree.absentDropsIndex, forceUsesIndex := Gen.WorkTree.forceUsesIndex }
 
 def legacy : Flags :=
   { cmpSha := true, cmpMode := false, modeBeforeStat := false, catchesNotDir := false,
     unstageCatchesNotDir := false, resolveLinks := true, linkDirsAsDirs := true, strictDecode := true,
-    deletesFirst := false }
+    deletesFirst := false, absentDropsIndex := false, forceUsesIndex := false }
 
 /-! ### status -/
 
@@ -590,26 +595,26 @@ def transitionToFile (obs : Obs) (s : WT) (p : Path) (e : Entry) : Except WErr W
       else writeFile obs s p e
 
 /-- `_transition_to_absent` -/
-def transitionToAbsent (s : WT) (p : Path) : Except WErr WT :=
+def transitionToAbsent (fl : Flags) (s : WT) (p : Path) : Except WErr WT :=
   if !validPath p then .ok s
   else match lstatView s.wd p with
     | .enotdir => .error .osError
-    | .enoent => .ok s
+    | .enoent => if fl.absentDropsIndex then .ok ⟨s.wd, s.index.erase p⟩ else .ok s
     | .dir => .ok ⟨s.wd, s.index.erase p⟩
     | .file _ => .ok ⟨s.wd.erase p, s.index.erase p⟩
 
-def applyChange (obs : Obs) (s : WT) : Change → Except WErr WT
-  | .delete p _ => transitionToAbsent s p
+def applyChange (fl : Flags) (obs : Obs) (s : WT) : Change → Except WErr WT
+  | .delete p _ => transitionToAbsent fl s p
   | .add p e => transitionToFile obs s p e
   | .modify p _ e => transitionToFile obs s p e
 
 /-- Apply the changes in order; on the first error the files written so far stay, the index is not
 written.  Returns the state and the error, if any. -/
-def applyChanges (obs : Obs) : WT → List Change → WT × Option WErr
+def applyChanges (fl : Flags) (obs : Obs) : WT → List Change → WT × Option WErr
   | s, [] => (s, none)
   | s, c :: cs =>
-    match applyChange obs s c with
-    | .ok s' => applyChanges obs s' cs
+    match applyChange fl obs s c with
+    | .ok s' => applyChanges fl obs s' cs
     | .error e => (s, some e)
 
 /-- The change writes a file below `p`. -/
@@ -687,9 +692,44 @@ def switchTo (fl : Flags) (w : World) (b : FMap Entry) (obs : Obs) : SwitchResul
       match preCheckModified w.wd chs with
       | .error e => ⟨w, some e⟩
       | .ok () =>
-        match applyChanges obs ⟨w.wd, w.index⟩ (applyOrder fl chs) with
+        match applyChanges fl obs ⟨w.wd, w.index⟩ (applyOrder fl chs) with
         | (s, some e) => ⟨{ w with wd := s.wd }, some e⟩
         | (s, none) => ⟨{ head := b, index := s.index, wd := s.wd }, none⟩
+
+/-! ### reset --hard and forced checkout: index, work tree and target may all differ -/
+
+/-- `tree_changes(old, new, want_unchanged=True)` at one path: an unchanged entry is visited like a
+modified one (`CHANGE_UNCHANGED` goes through `_transition_to_file`). -/
+def changesAtAll (a b : FMap Entry) (p : Path) : List Change :=
+  match a.get p, b.get p with
+  | some x, some y => if isLink x.kind != isLink y.kind then [.delete p x, .add p y] else [.modify p x y]
+  | some x, none => [.delete p x]
+  | none, some y => [.add p y]
+  | none, none => []
+
+def allChanges (a b : FMap Entry) : List Change := (changedPathOrder a b).flatMap (changesAtAll a b)
+
+/-- `porcelain.reset(repo, "hard", commit)` where the commit's tree is `t`: HEAD is moved first, then the
+work tree and the index are taken from the tree the index describes to `t`, overwriting local
+modifications. -/
+def resetHard (fl : Flags) (w : World) (t : FMap Entry) (obs : Obs) : SwitchResult :=
+  let chs := allChanges (treeOf w.index) t
+  match preCheckDirs w.wd chs with
+  | .error e => ⟨{ w with head := t }, some e⟩
+  | .ok () =>
+    match applyChanges fl obs ⟨w.wd, w.index⟩ (applyOrder fl chs) with
+    | (s, some e) => ⟨{ head := t, index := w.index, wd := s.wd }, some e⟩
+    | (s, none) => ⟨{ head := t, index := s.index, wd := s.wd }, none⟩
+
+/-- `porcelain.checkout(repo, branch, force=True)` / `porcelain.switch(…, force=True)`. -/
+def switchForce (fl : Flags) (w : World) (b : FMap Entry) (obs : Obs) : SwitchResult :=
+  let chs := if fl.forceUsesIndex then allChanges (treeOf w.index) b else changes w.head b
+  match preCheckDirs w.wd chs with
+  | .error e => ⟨w, some e⟩
+  | .ok () =>
+    match applyChanges fl obs ⟨w.wd, w.index⟩ (applyOrder fl chs) with
+    | (s, some e) => ⟨{ w with wd := s.wd }, some e⟩
+    | (s, none) => ⟨{ head := b, index := s.index, wd := s.wd }, none⟩
 
 /-! ### edits of the property's quantifier -/
 
